@@ -194,6 +194,9 @@ func (huc *htpasswdUserCache) Close() {
 }
 
 func (huc *htpasswdUserCache) Match(username string, password string) bool {
+	if huc.userFileObject == nil {
+		return false
+	}
 	return huc.userFileObject.Match(username, password)
 }
 
